@@ -497,4 +497,6 @@ def run(ctx):
         rule_PIN(ctx),
         rule_REV(ctx, transform),
     ]
+    from ..rules import pC20
+    rules.append(pC20.rule_let_order(ctx, select=lambda qn: qn.startswith('IterationTransform.'), rid='C14-LET', floor=4))
     return rules
